@@ -52,26 +52,182 @@ func readers(t types.Type) []*types.Func {
 	return out
 }
 
-// emitReaderSwitch writes: func <fn>(v <typ>, k int) { switch k { case i: _ = v.M() ... } }
-func emitReaderSwitch(sb *strings.Builder, fn, typ string, ms []*types.Func) {
+// digestHelpers are emitted once per generated file: a reader's results are folded into a byte
+// string so that repeated calls can be compared (C20: "repeated calls return equal results").
+const digestHelpers = `func verifDgBytes(d, b []byte) []byte {
+	d = append(d, byte(len(b)>>8), byte(len(b)))
+	return append(d, b...)
+}
+
+func verifDgU64(d []byte, v uint64) []byte {
+	return append(d, byte(v>>56), byte(v>>48), byte(v>>40), byte(v>>32), byte(v>>24), byte(v>>16), byte(v>>8), byte(v))
+}
+
+func verifDgBool(d []byte, b bool) []byte {
+	if b {
+		return append(d, 1)
+	}
+	return append(d, 0)
+}
+
+// verifDgTry folds the encoding of a returned value; a value whose ToBytes panics (nil pointer in
+// an interface) is folded as a marker: crash freedom is C03's subject, not this digest's.
+func verifDgTry(d []byte, f func() []byte) (out []byte) {
+	defer func() {
+		if recover() != nil {
+			out = append(d, 0xee)
+		}
+	}()
+	return verifDgBytes(d, f())
+}
+
+`
+
+func hasToBytes(t types.Type) bool {
+	for _, tt := range []types.Type{t, types.NewPointer(t)} {
+		ms := types.NewMethodSet(tt)
+		for i := 0; i < ms.Len(); i++ {
+			f, ok := ms.At(i).Obj().(*types.Func)
+			if !ok || f.Name() != "ToBytes" {
+				continue
+			}
+			sig := f.Type().(*types.Signature)
+			if sig.Params().Len() == 0 && sig.Results().Len() == 1 {
+				if sl, ok := sig.Results().At(0).Type().Underlying().(*types.Slice); ok {
+					if b, ok := sl.Elem().Underlying().(*types.Basic); ok && b.Kind() == types.Uint8 {
+						if tt == t {
+							return true
+						}
+						if _, isPtr := t.(*types.Pointer); !isPtr {
+							// method on *T only: callable on addressable values; we only call it on pointers
+							return false
+						}
+					}
+				}
+			}
+		}
+	}
+	return false
+}
+
+var digestVar int
+
+// genDigest returns statements folding expression x of type t into the byte slice d; skipped counts
+// the parts of results that are not folded (maps' contents, interfaces without ToBytes, ...).
+func genDigest(x string, t types.Type, depth int, ind string, skipped *int) string {
+	if depth > 3 {
+		*skipped++
+		return ""
+	}
+	if n, ok := t.(*types.Named); ok && n.Obj().Pkg() != nil && n.Obj().Pkg().Path() == "time" && n.Obj().Name() == "Time" {
+		*skipped++
+		return ""
+	}
+	_, isIface := t.Underlying().(*types.Interface)
+	_, isPtr := t.Underlying().(*types.Pointer)
+	if hasToBytes(t) {
+		if isIface || isPtr {
+			return fmt.Sprintf("%sif %s != nil {\n%s\td = verifDgTry(d, func() []byte { return %s.ToBytes() })\n%s} else {\n%s\td = append(d, 0)\n%s}\n", ind, x, ind, x, ind, ind, ind)
+		}
+		return fmt.Sprintf("%sd = verifDgBytes(d, %s.ToBytes())\n", ind, x)
+	}
+	switch u := t.Underlying().(type) {
+	case *types.Basic:
+		switch {
+		case u.Info()&types.IsBoolean != 0:
+			return fmt.Sprintf("%sd = verifDgBool(d, bool(%s))\n", ind, x)
+		case u.Info()&types.IsInteger != 0:
+			return fmt.Sprintf("%sd = verifDgU64(d, uint64(%s))\n", ind, x)
+		case u.Info()&types.IsString != 0:
+			return fmt.Sprintf("%sd = verifDgBytes(d, verifStrDigest(string(%s)))\n", ind, x)
+		}
+	case *types.Slice:
+		if b, ok := u.Elem().Underlying().(*types.Basic); ok && b.Kind() == types.Uint8 {
+			return fmt.Sprintf("%sd = verifDgBool(d, %s == nil)\n%sd = verifDgBytes(d, []byte(%s))\n", ind, x, ind, x)
+		}
+		digestVar++
+		v := fmt.Sprintf("e%d", digestVar)
+		inner := genDigest(v, u.Elem(), depth+1, ind+"\t", skipped)
+		if inner == "" {
+			return fmt.Sprintf("%sd = verifDgU64(d, uint64(len(%s)))\n", ind, x)
+		}
+		return fmt.Sprintf("%sd = verifDgU64(d, uint64(len(%s)))\n%sfor _, %s := range %s {\n%s%s}\n", ind, x, ind, v, x, inner, ind)
+	case *types.Array:
+		digestVar++
+		v := fmt.Sprintf("e%d", digestVar)
+		inner := genDigest(v, u.Elem(), depth+1, ind+"\t", skipped)
+		if inner == "" {
+			return ""
+		}
+		return fmt.Sprintf("%sfor _, %s := range %s {\n%s%s}\n", ind, v, x, inner, ind)
+	case *types.Pointer:
+		inner := genDigest("(*"+x+")", u.Elem(), depth+1, ind+"\t", skipped)
+		return fmt.Sprintf("%sif %s != nil {\n%s\td = append(d, 1)\n%s%s} else {\n%s\td = append(d, 0)\n%s}\n", ind, x, ind, inner, ind, ind, ind)
+	case *types.Struct:
+		var out string
+		for i := 0; i < u.NumFields(); i++ {
+			f := u.Field(i)
+			if !f.Exported() {
+				*skipped++
+				continue
+			}
+			out += genDigest(x+"."+f.Name(), f.Type(), depth+1, ind, skipped)
+		}
+		return out
+	case *types.Map:
+		*skipped++
+		return fmt.Sprintf("%sd = verifDgU64(d, uint64(len(%s)))\n", ind, x)
+	case *types.Interface:
+		*skipped++
+		return fmt.Sprintf("%sd = verifDgBool(d, %s != nil)\n", ind, x)
+	}
+	*skipped++
+	return ""
+}
+
+// emitReaderCase writes the body of one case: call the method, fold its results into d.
+func emitReaderCase(sb *strings.Builder, m *types.Func, ind string, skipped *int) {
+	sig := m.Type().(*types.Signature)
+	n := sig.Results().Len()
+	var names []string
+	var body string
+	for j := 0; j < n; j++ {
+		digestVar++
+		r := fmt.Sprintf("r%d", digestVar)
+		dg := genDigest(r, sig.Results().At(j).Type(), 0, ind, skipped)
+		if dg == "" {
+			names = append(names, "_")
+		} else {
+			names = append(names, r)
+			body += dg
+		}
+	}
+	allBlank := true
+	for _, nm := range names {
+		if nm != "_" {
+			allBlank = false
+		}
+	}
+	op := ":="
+	if allBlank {
+		op = "="
+	}
+	fmt.Fprintf(sb, "%s%s %s v.%s()\n%s", ind, strings.Join(names, ", "), op, m.Name(), body)
+}
+
+// emitReaderSwitch writes: func <fn>(v <typ>, k int) (d []byte) { switch k { case i: r := v.M(); fold r into d ... } }
+func emitReaderSwitch(sb *strings.Builder, fn, typ string, ms []*types.Func, skipped *int) {
 	fmt.Fprintf(sb, "var %sNames = []string{", fn)
 	for _, m := range ms {
 		fmt.Fprintf(sb, "%q, ", m.Name())
 	}
 	sb.WriteString("}\n\n")
-	fmt.Fprintf(sb, "func %s(v %s, k int) {\n\tswitch k {\n", fn, typ)
+	fmt.Fprintf(sb, "func %s(v %s, k int) (d []byte) {\n\tswitch k {\n", fn, typ)
 	for i, m := range ms {
-		fmt.Fprintf(sb, "\tcase %d:\n\t\t", i)
-		n := m.Type().(*types.Signature).Results().Len()
-		for j := 0; j < n; j++ {
-			if j > 0 {
-				sb.WriteString(", ")
-			}
-			sb.WriteString("_")
-		}
-		fmt.Fprintf(sb, " = v.%s()\n", m.Name())
+		fmt.Fprintf(sb, "\tcase %d:\n", i)
+		emitReaderCase(sb, m, "\t\t", skipped)
 	}
-	sb.WriteString("\t}\n}\n\n")
+	sb.WriteString("\t}\n\treturn d\n}\n\n")
 }
 
 // genArg synthesises a symbolic argument expression for a dhcpv4 constructor parameter.
@@ -173,10 +329,13 @@ func genV4(p *packages.Package, res *genResult) {
 	sb.WriteString("func verifGenLabel(name string) []byte {\n\tb := verifBytes(name, 2)\n\tfor _, c := range b {\n\t\tverifAssume(c != '.')\n\t}\n\treturn b\n}\n\n")
 	pkt := scope.Lookup("DHCPv4").Type()
 	rs := readers(types.NewPointer(pkt))
-	emitReaderSwitch(&sb, "verifPacketReader", "*DHCPv4", rs)
+	skipped := 0
+	sb.WriteString(digestHelpers)
+	emitReaderSwitch(&sb, "verifPacketReader", "*DHCPv4", rs, &skipped)
 	res.counts["dhcpv4.(*DHCPv4) readers"] = len(rs)
 	ors := readers(scope.Lookup("Options").Type())
-	emitReaderSwitch(&sb, "verifOptionsReader", "Options", ors)
+	emitReaderSwitch(&sb, "verifOptionsReader", "Options", ors, &skipped)
+	res.counts["dhcpv4 reader result parts not folded into the repeated-call comparison"] = skipped
 	res.counts["dhcpv4.Options readers"] = len(ors)
 	// constructors
 	var names []string
@@ -222,16 +381,18 @@ func genV6(p *packages.Package, res *genResult) {
 	scope := p.Types.Scope()
 	var sb strings.Builder
 	sb.WriteString("//go:build verif\n\n// Code generated by gosym from the package's types at check time. DO NOT EDIT.\n\npackage dhcpv6\n\n")
+	skipped := 0
+	sb.WriteString(digestHelpers)
 	for _, tn := range []string{"Message", "RelayMessage"} {
 		t := scope.Lookup(tn).Type()
 		rs := readers(types.NewPointer(t))
-		emitReaderSwitch(&sb, "verif"+tn+"Reader", "*"+tn, rs)
+		emitReaderSwitch(&sb, "verif"+tn+"Reader", "*"+tn, rs, &skipped)
 		res.counts["dhcpv6.(*"+tn+") readers"] = len(rs)
 	}
 	for _, tn := range []string{"MessageOptions", "RelayOptions"} {
 		t := scope.Lookup(tn).Type()
 		rs := readers(t)
-		emitReaderSwitch(&sb, "verif"+tn+"Reader", tn, rs)
+		emitReaderSwitch(&sb, "verif"+tn+"Reader", tn, rs, &skipped)
 		res.counts["dhcpv6."+tn+" readers"] = len(rs)
 	}
 	// the option-parser switch
@@ -321,22 +482,16 @@ func genV6(p *packages.Package, res *genResult) {
 	sb.WriteString("\t}\n\treturn 0\n}\n\n")
 	res.counts["dhcpv6 option types"] = len(tis)
 	res.counts["dhcpv6 option readers (all types)"] = total
-	sb.WriteString("// verifOptionReader calls the k-th read-only method of o's dynamic type.\nfunc verifOptionReader(o Option, k int) {\n\tswitch v := o.(type) {\n")
+	sb.WriteString("// verifOptionReader calls the k-th read-only method of o's dynamic type and folds its results.\nfunc verifOptionReader(o Option, k int) (d []byte) {\n\tswitch v := o.(type) {\n")
 	for _, ti := range tis {
 		fmt.Fprintf(&sb, "\tcase %s:\n\t\tswitch k {\n", ti.ts)
 		for i, m := range ti.ms {
-			fmt.Fprintf(&sb, "\t\tcase %d:\n\t\t\t", i)
-			n := m.Type().(*types.Signature).Results().Len()
-			for j := 0; j < n; j++ {
-				if j > 0 {
-					sb.WriteString(", ")
-				}
-				sb.WriteString("_")
-			}
-			fmt.Fprintf(&sb, " = v.%s()\n", m.Name())
+			fmt.Fprintf(&sb, "\t\tcase %d:\n", i)
+			emitReaderCase(&sb, m, "\t\t\t", &skipped)
 		}
 		sb.WriteString("\t\t}\n")
 	}
-	sb.WriteString("\t}\n}\n")
+	sb.WriteString("\t}\n\treturn d\n}\n")
+	res.counts["dhcpv6 reader result parts not folded into the repeated-call comparison"] = skipped
 	res.files["dhcpv6/zz_verif_generated.go"] = []byte(sb.String())
 }
